@@ -14,7 +14,18 @@ import (
 	"golang.org/x/tools/go/ssa/ssautil"
 )
 
-const repoDir = "/repo"
+// repoDir is /repo; the selftest (and only it) points the engine at a scratch worktree carrying a
+// seeded change through GOVC_REPO, with outputs redirected by GOVC_OUT.
+var repoDir = envOr("GOVC_REPO", "/repo")
+
+var outRoot = envOr("GOVC_OUT", "/verif/out")
+
+func envOr(k, d string) string {
+	if v := os.Getenv(k); v != "" {
+		return v
+	}
+	return d
+}
 const verifDir = "/verif"
 const repoModule = "github.com/jamf/regatta"
 
@@ -282,15 +293,15 @@ func (fg *FG) refOf(v Val) string {
 
 // load loads the packages (working tree, build tag verif) and builds SSA for them.
 func loadGen(patterns []string, overlay map[string][]byte) (*Gen, error) {
-	os.MkdirAll(filepath.Join(verifDir, "out"), 0o755)
+	os.MkdirAll(outRoot, 0o755)
 	// scratch copy of go.mod/go.sum so that -mod=mod never rewrites /repo/go.mod
-	modCopy := filepath.Join(verifDir, "out", "go.mod")
+	modCopy := filepath.Join(outRoot, "go.mod")
 	for _, f := range []string{"go.mod", "go.sum"} {
 		b, err := os.ReadFile(filepath.Join(repoDir, f))
 		if err != nil {
 			return nil, err
 		}
-		if err := os.WriteFile(filepath.Join(verifDir, "out", f), b, 0o644); err != nil {
+		if err := os.WriteFile(filepath.Join(outRoot, f), b, 0o644); err != nil {
 			return nil, err
 		}
 	}
